@@ -84,7 +84,7 @@ type Prog struct {
 // Sym maps the ASCII symbols of the specification to glyphs.
 var Sym = map[string]string{
 	"@display": "显示", "@exc": "异常", "@content": "内容", "@len": "长度", "@first": "首项", "@last": "末项",
-	"@append": "后增", "@prepend": "前增", "@shift": "左移", "@pop": "右移", "@put": "写入", "@remove": "移除",
+	"@append": "后增", "@prepend": "前增", "@shift": "左移", "@pop": "右移", "@put": "写入", "@remove": "移除", "@incr": "自增", "@decr": "自减",
 	"@self": "自身", "@true": "真", "@false": "假", "@null": "空", "@random": "取随机数", "@num": "数值",
 }
 
